@@ -4,7 +4,7 @@ count = 1..300 for one alphabet size carrying p = mod^count, and compares `calcB
 of the C routine, constants regenerated from the source) with the exact count through the two
 inequalities  mod^count ≤ 2^(64 b)  and  2^(64 (b-1)) < mod^count.
 -/
-import Bee2V.C01.Model.Fmt
+import Bee2V.C01.Model.FmtB
 namespace Bee2V.C01
 
 /-- `b` is the least number of 64-bit blocks that hold a word of `Z_mod^count` -/
